@@ -143,26 +143,46 @@ func runReplay(doc *ReplayDoc, path string) ReplayResult {
 		ov["Replace"][filepath.Join(repoDir, rel)] = p
 		return nil
 	})
-	// environment redirects: rewrite the call sites in overlay copies of the package sources
-	if entries, err := os.ReadDir(filepath.Join(repoDir, pkgdir)); err == nil {
+	// environment redirects: rewrite the call sites in overlay copies of the sources of every
+	// repository package whose harness directory defines the model function
+	var pkgDirs []string
+	filepath.Walk(stage, func(p string, info os.FileInfo, err error) error {
+		if err == nil && info.IsDir() {
+			if rel, _ := filepath.Rel(stage, p); rel != "." {
+				pkgDirs = append(pkgDirs, rel)
+			}
+		}
+		return nil
+	})
+	for _, dir := range pkgDirs {
+		entries, err := os.ReadDir(filepath.Join(repoDir, dir))
+		if err != nil {
+			continue
+		}
 		for _, en := range entries {
 			if en.IsDir() || !strings.HasSuffix(en.Name(), ".go") || strings.HasSuffix(en.Name(), "_test.go") {
 				continue
 			}
-			src, err := os.ReadFile(filepath.Join(repoDir, pkgdir, en.Name()))
+			src, err := os.ReadFile(filepath.Join(repoDir, dir, en.Name()))
 			if err != nil {
 				continue
 			}
 			out := string(src)
-			for from, to := range redirects {
-				if bytes.Contains(pkgData, []byte("func "+to+"(")) || harnessDefines(stage, pkgdir, to) {
-					out = strings.ReplaceAll(out, from+"(", to+"(")
+			for _, r := range redirectList {
+				if r.target == "" || !strings.Contains(out, r.srcText) {
+					continue
+				}
+				if harnessDefines(stage, dir, r.target) {
+					out = strings.ReplaceAll(out, r.srcText, r.target+"(")
+					if r.keep != "" {
+						out += "\n" + r.keep + "\n"
+					}
 				}
 			}
 			if out != string(src) {
-				dst := filepath.Join(stage, pkgdir, "zz_rewritten_"+en.Name())
+				dst := filepath.Join(stage, dir, "zz_rewritten_"+en.Name())
 				os.WriteFile(dst, []byte(out), 0o644)
-				ov["Replace"][filepath.Join(repoDir, pkgdir, en.Name())] = dst
+				ov["Replace"][filepath.Join(repoDir, dir, en.Name())] = dst
 			}
 		}
 	}
@@ -257,5 +277,21 @@ func harnessDefines(stage, pkgdir, fn string) bool {
 			found = true
 		}
 	}
+	return found
+}
+
+// harnessDefinesAnywhere: the target may live in the package itself; a repo package can only call
+// its own package's function, so look in the rewritten file's package directory first.
+func harnessDefinesAnywhere(stage, fn string) bool {
+	found := false
+	filepath.Walk(stage, func(p string, info os.FileInfo, err error) error {
+		if err != nil || info.IsDir() || !strings.HasSuffix(p, ".go") {
+			return nil
+		}
+		if data, err := os.ReadFile(p); err == nil && bytes.Contains(data, []byte("func "+fn+"(")) {
+			found = true
+		}
+		return nil
+	})
 	return found
 }
